@@ -38,8 +38,9 @@ def sites():
                 visit(ch, qual + [ch.name])
             else:
                 visit(ch, qual)
-        if isinstance(node, (ast.GeneratorExp, ast.ListComp, ast.SetComp)) and isinstance(node.generators[0].iter, ast.Call) \
-                and ast.unparse(node.generators[0].iter.func) == "os.listdir":
+        # a comprehension over os.listdir(...), possibly through an order-only wrapper such as sorted(os.listdir(...))
+        if isinstance(node, (ast.GeneratorExp, ast.ListComp, ast.SetComp)) and any(
+                isinstance(c, ast.Call) and ast.unparse(c.func) == "os.listdir" for c in ast.walk(node.generators[0].iter)):
             out.append((".".join(qual), node))
 
     visit(tree, [])
@@ -90,7 +91,79 @@ def vcs():
                       twins=[("prefix_only", lambda p: (z3.PrefixOf(P, X) if len(p.value) else z3.Not(z3.PrefixOf(P, X))) if api.returns(p) else False)],
                       inputs={"x": X, "prefix": P, "suffix": S}, replay=lambda m, qual=qual: replay_select(m, qual), timeout_ms=60000,
                       assumptions=["os.listdir abstracted to one generic file name (comprehensions are element-wise); local names fpl/fsl bound to len(prefix)/len(suffix) as assigned two lines above the comprehension in _DirectoryDataset.__init__"]))
+    out.append(order_vc())
     return out, len(found)
+
+
+X1, X2 = z3.Strings("x1 x2")
+
+
+def order_vc():
+    """_DirectoryDataset lists its utterances sorted BY ID (the subset command's --first-n / --first-ratio and the error-rate
+    command's ref/hyp pairing rely on it): real __init__ on a directory of two arbitrary file names."""
+    import pydrobert.torch.command_line as cl
+
+    def sorted_contract(I, it, **k):
+        if k:
+            raise ip.Unsupported("sorted with key/reverse")
+        xs = list(I.iterate(it))
+        if len(xs) <= 1:
+            return xs
+        if len(xs) != 2:
+            raise ip.Unsupported("sorted of more than two symbolic items")
+        a, b = xs
+        # assumed contract of sorted on two strings: ascending in python's (code point) string order, stable
+        return [a, b] if I.ex.branch(a <= b) else [b, a]
+
+    def thunk(I):
+        I.stubs["posix.listdir"] = lambda I2, d: [X1, X2]
+        I.stubs["builtins.sorted"] = sorted_contract
+        obj = ip.SObj(cl._DirectoryDataset, {}, "self")
+        I.call(I.getattr(obj, "__init__"), ["d", P, S], {})
+        return obj
+
+    sel = lambda x: z3.And(z3.PrefixOf(P, x), z3.SuffixOf(S, x))
+    uid = lambda x: z3.SubString(x, z3.Length(P), z3.Length(x) - z3.Length(P) - z3.Length(S))
+
+    def post(p):
+        if not api.returns(p):
+            return False
+        v = p.value.fields.get("utt_ids") if hasattr(p.value, "fields") else None
+        if not isinstance(v, list):
+            return False
+        n_sel = z3.If(sel(X1), 1, 0) + z3.If(sel(X2), 1, 0)
+        goals = [("one_id_per_selected_file", n_sel == len(v))]
+        if len(v) == 2:
+            goals.append(("ascending_by_id", v[0] <= v[1]))
+            goals.append(("ids_of_the_two_files", z3.Or(z3.And(v[0] == uid(X1), v[1] == uid(X2)), z3.And(v[0] == uid(X2), v[1] == uid(X1)))))
+        return goals
+
+    long_ = lambda x: z3.Length(x) >= z3.Length(P) + z3.Length(S)
+    return VC("C17.P.ids_sorted", "_DirectoryDataset.__init__[two files]", M, "_DirectoryDataset.__init__", thunk, pre=[long_(X1), long_(X2), X1 != X2],
+              posts=[("utterances_listed_in_id_order", post)], inputs={"x1": X1, "x2": X2, "prefix": P, "suffix": S}, replay=replay_order, timeout_ms=60000,
+              twins=[("descending", lambda p: (p.value.fields["utt_ids"][0] > p.value.fields["utt_ids"][1]) if api.returns(p) and len(p.value.fields.get("utt_ids", [])) == 2 else None)],
+              assumptions=["os.listdir abstracted to two arbitrary distinct file names in arbitrary order (the order property is pairwise); sorted on two strings = ascending code-point order",
+                           "domain: file names at least as long as prefix+suffix"])
+
+
+def replay_order(m):
+    import os
+    import tempfile
+    import torch
+    import pydrobert.torch.command_line as cl
+
+    x1, x2, p, s = (m.get(k) or "" for k in ("x1", "x2", "prefix", "suffix"))
+    ok = lambda x: x and "/" not in x and "\x00" not in x and x not in (".", "..") and len(x.encode("utf8", "replace")) < 200 and all(ord(c) < 0xD800 for c in x)
+    if not (ok(x1) and ok(x2)) or x1 == x2:
+        return None
+    with tempfile.TemporaryDirectory() as d:
+        for x in (x1, x2):
+            torch.save(torch.zeros(1), os.path.join(d, x))
+        ds = cl._DirectoryDataset(d, p, s)
+        want = sorted(x[len(p):len(x) - len(s)] for x in (x1, x2) if x.startswith(p) and x.endswith(s))
+        if list(ds.utt_ids) != want:
+            return "files %r, %r with prefix %r suffix %r: utterances listed as %r, by id they are %r" % (x1, x2, p, s, list(ds.utt_ids), want)
+    return None
 
 
 def replay_select(m, qual):
@@ -144,7 +217,8 @@ def run(ctx):
     if n < 6:
         ctx.errors.append("expected at least 6 os.listdir filter sites in command_line.py, found %d" % n)
         ctx.log("ERROR: only %d listdir filter sites located (vacuity guard)" % n)
-    api.run_vcs(ctx, v, {"C17.select.prefix_suffix": "every os.listdir filter selects exactly startswith(prefix) and endswith(suffix) and derives the documented id (%d sites)" % n})
+    api.run_vcs(ctx, v, {"C17.select.prefix_suffix": "every os.listdir filter selects exactly startswith(prefix) and endswith(suffix) and derives the documented id (%d sites)" % n,
+                         "C17.P.ids_sorted": "_DirectoryDataset lists exactly the selected files' ids in ascending id order (what --first-n / --first-ratio and the ref/hyp pairing of the error-rate command rely on), for any two file names, prefix and suffix"})
     if C17_rt:
         C17_rt.run_bounded(ctx)
     ctx.not_applicable.append("'every completion order of the worker pool' (schedules): contracts are sequential; only the worker counts actually run are compared")
